@@ -924,9 +924,7 @@ Section OscInert.
     | |- context [match ?x with _ => _ end] => destruct x
     | |- context [if ?x then _ else _] => destruct x
     end.
-  Ltac unf_sets :=
-    unfold set_transfer, set_zmodem, set_prompt, set_prompts, set_trace_on, set_interrupting, set_skip_cmd,
-      set_cur_cmd, set_osc, set_detect_on, set_drag, set_held, set_det, set_drag_procs, set_handlers in *.
+  Ltac unf_sets := idtac.
 
   Lemma out_forward_osc : forall o1 o2 (a b : state) pa pb c, o_zmodem o1 = o_zmodem o2 ->
     osc_eq a b -> no_clip pa = no_clip pb ->
